@@ -27,7 +27,7 @@ S(id="API.err.message", props=["C15"], spec="api.spec.c", harness="h_error_messa
 PROPERTY_META = {}
 
 # ---------------- C19: hashtab.c ----------------
-HT = dict(spec="hashtab.spec.c", params={"quick": {"CAP": 64}, "thorough": {"CAP": 1024}})
+HT = dict(spec="hashtab.spec.c", params={"quick": {"CAP": 16}, "thorough": {"CAP": 256}})
 S(id="HT.hpn", props=["C19"], harness="h_hpn", mode="U", loops=True, n_loops=2, enforce=["higher_prime_number/hpn_c"],
   functions=["higher_prime_number"], what="result is odd (partial correctness; '> n' and '<= 2n+3' are the assumed Bertrand clause, N-checked exhaustively in HT.hpn.native)", **HT)
 S(id="HT.create", props=["C19", "C12"], harness="h_create", mode="U", loops=True, n_loops=1, enforce=["create_hash_table/create_c"],
@@ -38,7 +38,7 @@ S(id="HT.empty", props=["C19", "C12"], harness="h_empty", mode="U", loops=True, 
 S(id="HT.delete", props=["C19", "C12", "C14"], harness="h_delete", mode="L", enforce=["delete_hash_table/delete_c"],
   functions=["delete_hash_table"], what="both blocks released exactly once", **HT)
 S(id="HT.find", props=["C19", "C12"], harness="h_find", mode="U", loops=True, n_loops=1, canaries=2, enforce=["find_hash_table_entry/find_c"],
-  functions=["find_hash_table_entry"], weight=5,
+  functions=["find_hash_table_entry"], weight=5, split=12, timeout=400,
   what="in-bounds aligned result, never a DELETED slot, non-empty result was accepted by eq, count+1 iff reserved, an arbitrary other slot unchanged (deleted slot reused is cleared)", **HT)
 S(id="HT.remove", props=["C19", "C12"], harness="h_remove", mode="L", enforce=["remove_element_from_hash_table_entry/remove_c"],
   replace=["find_hash_table_entry/find_for_remove_c"], functions=["remove_element_from_hash_table_entry"],
@@ -62,3 +62,19 @@ for nm, fn, c, extra in [("finish", "w_top_finish", "top_finish_c", []), ("nulli
 
       functions=["OS_TOP_%s (macro, via one-line wrapper %s)" % (nm.upper(), fn)],
       what="macro OS_TOP_%s: length arithmetic, appended bytes, earlier bytes unchanged, writes stay inside the segment" % nm.upper(), **OS)
+
+# ---------------- C19: vlobject.c ----------------
+VLO = dict(spec="vlobject.spec.c", params={"quick": {"CAP": 64}, "thorough": {"CAP": 1024}})
+for nm, extra in [("create", []), ("delete", []), ("nullify", []), ("length", []), ("begin", []), ("bound", []), ("shorten", []),
+                  ("expand", ["_VLO_expand_memory/vlo_expand_use_c"]), ("add_byte", ["_VLO_expand_memory/vlo_expand_use_c"]),
+                  ("add_memory", ["_VLO_expand_memory/vlo_expand_use_c"])]:
+    S(id="VLO." + nm, props=["C19", "C12"], harness="h_vlo_" + nm, mode="L", enforce=["w_vlo_%s/vlo_%s_c" % (nm, nm)], replace=extra,
+      functions=["VLO_%s (macro, via one-line wrapper w_vlo_%s)" % (nm.upper(), nm)],
+      what="macro VLO_%s: length arithmetic, contents (ghost index), writes stay inside the block" % nm.upper(),
+      assumes=["A5: contract of _VLO_expand_memory assumed (pointer difference across realloc is outside CBMC's memory model); exercised natively by VLO.grow (N)"] if extra else [], **VLO)
+S(id="VLO.grow", props=["C19", "C12"], spec="native/vlo_grow.c", mode="N", link=["vlobject.c", "allocate.c"], harness="main",
+  params={"quick": {"K": 48}, "thorough": {"K": 160}}, bound="initial length 0..K, appended 1..K, initial capacity 1,5,9; realloc always moves and poisons",
+  functions=["_VLO_expand_memory", "_VLO_tailor_function"], what="contents, length and capacity across realloc-based growth and tailoring (outside CBMC's memory model)")
+S(id="HT.hpn.native", props=["C19"], spec="native/ht_prime.c", mode="N", link=["hashtab.c", "allocate.c"], harness="main",
+  params={"quick": {"K": 20000}, "thorough": {"K": 2000000}}, bound="all requested sizes 0..K",
+  functions=["higher_prime_number"], what="assumed clause of hpn_assumed_c: result is a prime in (n, 2n+3]")
